@@ -7,11 +7,11 @@ System (Xp/Model/C06.lean): one claim-controller thread running `reconcile cfg`
 (both syncers; `cfg` = syncer, which cached version of the claim the read returns,
 name oracle, managed-fields oracle), interleaved at API-call granularity with the
 environment `Env` (XR controller / GC / user rewriting or removing XRs without ever
-changing spec.claimRef or creating an XR; user editing or deleting the claim without
-changing spec.resourceRef), every call possibly failing (`callErr`: server error or
+changing spec.claimRef or creating an XR; user editing or deleting the claim, possibly
+rewriting apiVersion/kind of spec.resourceRef, without changing spec.resourceRef.name), every call possibly failing (`callErr`: server error or
 conflict; `callLost`: applied but the reply is lost), and crashes/restarts at any point
-(`start` drops the in-flight reconcile and begins a new one with arbitrary `cfg`;
-crash-after = `callOk` then `start`).
+(`start` drops the in-flight reconcile and begins a new one with arbitrary `cfg` — including
+another XR version `cfg.xrt` of the controller; crash-after = `callOk` then `start`).
 `Reach s0 sys` = `sys` is reachable from the store `s0`. The theorems hold for every
 reachable state, i.e. over ALL schedules, fault plans, cache lags and histories.
 
@@ -27,9 +27,22 @@ read that shows "absent / unbound / ours" still proves "not foreign now" (`Inv.x
 controller binds XRs: there, between any read and the forced apply of the server-side
 syncer, the XR can become foreign (recorded limit, outside the property's quantifier).
 
+References are full references. A claim's `spec.resourceRef` is (name, group, version, kind); an
+XR's `spec.claimRef` and the claim's own identity `St.me` (= `cm.GetReference()`) are (name,
+namespace, group, version, kind). "The claim references an XR" is a function of the reference's
+NAME only, as in the code (`Claim.refName`), so the one-XR theorems hold whatever group, version
+or kind the recorded reference carries — also when the controller's XR version (`Cfg.xrt`,
+arbitrary at every `start`) changes between reconciles and when somebody rewrites the type of the
+reference (`Env.claimWrite` only fixes the name). "The XR is bound to this claim" is equality of
+all five components (`cmp.Equal` on reference.Claim): `no_hijack` speaks about every XR whose
+claimRef differs from `St.me` in ANY of them (`no_hijack_components`), e.g. the claim with the
+same name in another namespace. A `uid` key in a claimRef is not a component the code looks at
+(`unbound_ignores_uid`). Not varied: the claim's own apiVersion (`St.me` is fixed; if the claim
+version is switched the pinned code refuses its own XR — no second XR, nothing written).
+
 `Init s0` (Xp/Proofs/C06Run.lean) = admissible initial store: empty ghost trace; the
-claim's version history is well formed (strictly increasing rv, set-once reference, the
-stored version is the newest); an XR already bound to this claim is one the claim
+claim's version history is well formed (strictly increasing rv, set-once reference name, every
+version is the object `St.me`, the stored version is the newest); an XR already bound to this claim is one the claim
 references or referenced; XR state histories are consistent (`xcur`, `xfor`).
 `Init.single` builds it from a claim with a single version and XRs without history.
 -/
@@ -43,31 +56,63 @@ theorem stale_update_rejected (s : St) (cur c : Claim) (hc : s.claim = some cur)
     exec s (.updClaim c) = (s, .err .conflict) := by
   simp [exec, hc, hrv]
 
-/-- `spec.resourceRef` is set-once: in every reachable state, a newer stored version of
-the claim keeps the reference of every older one, and any two versions that carry a
-reference carry the same one. -/
+/-- The NAME in `spec.resourceRef` is set-once: in every reachable state, a newer stored version of
+the claim references an XR of the same name as every older one, and any two versions that carry a
+reference name the same XR — whatever group, version and kind the two references carry (those
+may differ: the syncers rewrite them to the controller's current XR type). -/
 theorem ref_set_once {s0 : St} (h0 : Init s0) {sys : Sys} (hr : Reach s0 sys) :
-    (∀ a ∈ sys.st.hist, ∀ b ∈ sys.st.hist, a.rv < b.rv → ∀ n, a.ref = some n → b.ref = some n) ∧
-    (∀ a ∈ sys.st.hist, ∀ b ∈ sys.st.hist, ∀ n m, a.ref = some n → b.ref = some m → n = m) := by
+    (∀ a ∈ sys.st.hist, ∀ b ∈ sys.st.hist, a.rv < b.rv → ∀ r, a.ref = some r → ∃ r', b.ref = some r' ∧ r'.name = r.name) ∧
+    (∀ a ∈ sys.st.hist, ∀ b ∈ sys.st.hist, ∀ r r', a.ref = some r → b.ref = some r' → r.name = r'.name) := by
   have hi := (reach_inv h0.inv hr).1
-  refine ⟨?_, fun a ha b hb n m hn hm => hist_ref_unique hi.mono ha hb hn hm⟩
-  intro a ha b hb hlt n hn
-  rcases pairwise_mem_cases hi.mono ha hb with e | ⟨h, _⟩ | ⟨_, h⟩
-  · subst e; omega
-  · omega
-  · exact h n hn
+  refine ⟨?_, fun a ha b hb r r' hn hm => hist_ref_unique hi.mono ha hb (refName_of_ref hn) (refName_of_ref hm)⟩
+  intro a ha b hb hlt r hn
+  have key : b.refName = some r.name := by
+    rcases pairwise_mem_cases hi.mono ha hb with e | ⟨h, _⟩ | ⟨_, h⟩
+    · subst e; omega
+    · omega
+    · exact h _ (refName_of_ref hn)
+  unfold Claim.refName at key
+  cases hb' : b.ref with
+  | none => rw [hb'] at key; cases key
+  | some r' => rw [hb'] at key; exact ⟨r', rfl, Option.some.inj key⟩
+
+/-! ### the recorded name is what is looked up and reused, whatever type the reference carries -/
+
+/-- the request a program issues first -/
+def firstReq : P → Option Req
+  | .call r _ => some r
+  | .ret _ => none
+
+/-- A claim whose `spec.resourceRef` carries the name `n` under ANY group `g`, version `v` and kind
+`k` — the controller's current XR apiVersion, another served version of the same kind (the XRD's
+referenceable version was switched and the controller restarted for `cfg.xrt`), another group,
+another kind, or none at all — is treated as bound to `n`: Reconcile reads XR `n`; the server-side
+syncer updates the claim with, then applies, `n`; the client-side syncer applies `n`, after an
+Update(claim) that records `n` again if the stored reference is not literally the proposed one.
+No path draws a fresh name. -/
+theorem recorded_name_reused (cfg : Cfg) (cm : Claim) (xr : Option XR) (n : Name) (g v k : String) :
+    firstReq (withClaim cfg { cm with ref := some ⟨n, g, v, k⟩ }) = some (.getXR n (cfg.xpick 0)) ∧
+    syncSSA cfg { cm with ref := some ⟨n, g, v, k⟩ } = ssaBind cfg { cm with ref := some ⟨n, g, v, k⟩ } n ∧
+    (syncCSA cfg { cm with ref := some ⟨n, g, v, k⟩ } xr = csaApply cfg xr { cm with ref := some ⟨n, g, v, k⟩ } n ∨
+     syncCSA cfg { cm with ref := some ⟨n, g, v, k⟩ } xr = csaBindNew cfg xr { cm with ref := some ⟨n, g, v, k⟩ } n) := by
+  refine ⟨rfl, rfl, ?_⟩
+  simp only [syncCSA]
+  split
+  · exact Or.inl rfl
+  · exact Or.inr rfl
 
 /-! ### one_xr -/
 
-/-- At every instant of every execution at most one XR is bound to the claim, and it is
-the one the claim's stored `spec.resourceRef` names. -/
+/-- At every instant of every execution at most one XR is bound to the claim (carries a claimRef
+equal to the claim's reference in name, namespace, group, version and kind), and it is the one the
+claim's stored `spec.resourceRef` names — whatever group, version and kind that reference carries. -/
 theorem one_xr {s0 : St} (h0 : Init s0) {sys : Sys} (hr : Reach s0 sys) :
     (∀ n m, boundAt sys.st n → boundAt sys.st m → n = m) ∧
-    (∀ c r, sys.st.claim = some c → c.ref = some r → ∀ n, boundAt sys.st n → n = r) := by
+    (∀ c (r : XRef), sys.st.claim = some c → c.ref = some r → ∀ n, boundAt sys.st n → n = r.name) := by
   have hi := (reach_inv h0.inv hr).1
   refine ⟨fun n m hn hm => acked_unique hi (hi.bound n hn) (hi.bound m hm), ?_⟩
   intro c r hc hr' n hn
-  exact acked_unique hi (hi.bound n hn) ⟨c, cur_mem hi hc, hr'⟩
+  exact acked_unique hi (hi.bound n hn) ⟨c, cur_mem hi hc, refName_of_ref hr'⟩
 
 /-- the same as a count: among any duplicate-free list of XR names at most one is bound -/
 theorem one_xr_count {s0 : St} (h0 : Init s0) {sys : Sys} (hr : Reach s0 sys) (names : List Name) (hnd : names.Nodup) :
@@ -87,15 +132,16 @@ theorem one_xr_count {s0 : St} (h0 : Init s0) {sys : Sys} (hr : Reach s0 sys) (n
     simp at hnd'
 
 /-- Every XR the claim controller ever creates, over the whole history (all retries after
-all interruptions, all stale reads), has one and the same name, and that is the name
-durably recorded in the claim's `spec.resourceRef`: a retry reuses it. -/
+all interruptions, all stale reads, all restarts of the controller under another XR version), has
+one and the same name, and that is the name durably recorded in the claim's `spec.resourceRef`:
+a retry reuses it, whatever group, version and kind the recorded reference carries. -/
 theorem created_names_unique {s0 : St} (h0 : Init s0) {sys : Sys} (hr : Reach s0 sys) :
     (∀ n m, Ev.create n ∈ sys.st.trace → Ev.create m ∈ sys.st.trace → n = m) ∧
-    (∀ n c r, Ev.create n ∈ sys.st.trace → sys.st.claim = some c → c.ref = some r → n = r) := by
+    (∀ n c (r : XRef), Ev.create n ∈ sys.st.trace → sys.st.claim = some c → c.ref = some r → n = r.name) := by
   have hi := (reach_inv h0.inv hr).1
   have key : ∀ n, Ev.create n ∈ sys.st.trace → acked sys.st n := by
     intro n hn
-    have : ∀ tr, TraceOk (acked s0) tr → (∀ m, Ev.ack m ∈ tr → acked sys.st m) → Ev.create n ∈ tr → acked sys.st n := by
+    have : ∀ tr, TraceOk (acked s0) sys.st.me tr → (∀ m, Ev.ack m ∈ tr → acked sys.st m) → Ev.create n ∈ tr → acked sys.st n := by
       intro tr
       induction tr with
       | nil => intro _ _ h; cases h
@@ -109,7 +155,14 @@ theorem created_names_unique {s0 : St} (h0 : Init s0) {sys : Sys} (hr : Reach s0
     exact this _ hi.trace hi.ackHist hn
   refine ⟨fun n m hn hm => acked_unique hi (key n hn) (key m hm), ?_⟩
   intro n c r hn hc hr'
-  exact acked_unique hi (key n hn) ⟨c, cur_mem hi hc, hr'⟩
+  exact acked_unique hi (key n hn) ⟨c, cur_mem hi hc, refName_of_ref hr'⟩
+
+/-- the same with the components spelled out: if the stored claim records the name `nm` under ANY
+group `g`, version `v` and kind `k`, every XR ever created is called `nm` -/
+theorem created_name_any_ref_type {s0 : St} (h0 : Init s0) {sys : Sys} (hr : Reach s0 sys)
+    (c : Claim) (nm : Name) (g v k : String) (hc : sys.st.claim = some c) (href : c.ref = some ⟨nm, g, v, k⟩)
+    (n : Name) (hn : Ev.create n ∈ sys.st.trace) : n = nm :=
+  (created_names_unique h0 hr).2 n c _ hn hc href
 
 /-! ### ref_before_create -/
 
@@ -121,7 +174,7 @@ theorem ref_before_create {s0 : St} (h0 : Init s0) {sys : Sys} (hr : Reach s0 sy
     (post pre : List Ev) (n : Name) (hsplit : sys.st.trace = post ++ Ev.create n :: pre) :
     Ev.ack n ∈ pre ∨ acked s0 n := by
   have hi := (reach_inv h0.inv hr).1
-  have : ∀ tr post, TraceOk (acked s0) tr → tr = post ++ Ev.create n :: pre → Ev.ack n ∈ pre ∨ acked s0 n := by
+  have : ∀ tr post, TraceOk (acked s0) sys.st.me tr → tr = post ++ Ev.create n :: pre → Ev.ack n ∈ pre ∨ acked s0 n := by
     intro tr
     induction tr with
     | nil => intro post _ h; cases post <;> cases h
@@ -140,21 +193,65 @@ theorem ref_before_create {s0 : St} (h0 : Init s0) {sys : Sys} (hr : Reach s0 sy
 /-! ### no_hijack -/
 
 /-- No write and no delete of the claim controller ever takes effect on an XR whose stored
-`spec.claimRef` names another claim (in the environment the property fixes; XR reads may be
-stale). -/
-theorem no_hijack {s0 : St} (h0 : Init s0) {sys : Sys} (hr : Reach s0 sys) (n : Name) :
-    Ev.xrWrite n true ∉ sys.st.trace := by
+`spec.claimRef` is not exactly this claim's reference (in the environment the property fixes; XR
+reads may be stale): whenever such a call was applied to an XR carrying a claimRef `r`, then `r` is
+the claim's own reference. -/
+theorem no_hijack {s0 : St} (h0 : Init s0) {sys : Sys} (hr : Reach s0 sys) (n : Name) (r : CRef) :
+    Ev.xrWrite n (some r) ∈ sys.st.trace → r = s0.me := by
   have hi := (reach_inv h0.inv hr).1
-  have : ∀ tr, TraceOk (acked s0) tr → Ev.xrWrite n true ∉ tr := by
+  rw [← reach_me hr]
+  have : ∀ tr, TraceOk (acked s0) sys.st.me tr → Ev.xrWrite n (some r) ∈ tr → r = sys.st.me := by
     intro tr
     induction tr with
     | nil => intro _ h; cases h
     | cons e t ih =>
       intro htr h
       rcases List.mem_cons.mp h with rfl | h
-      · exact htr.2.2 n rfl
+      · exact htr.2.2 n r rfl
       · exact ih htr.1 h
   exact this _ hi.trace
+
+/-- component-wise: an XR whose claimRef differs from this claim's reference in ANY component
+`cmp.Equal` looks at — the name, the namespace (the same-named claim of another namespace), the
+group, the version or the kind — is never written or deleted by this claim's controller. -/
+theorem no_hijack_components {s0 : St} (h0 : Init s0) {sys : Sys} (hr : Reach s0 sys) (n : Name) (r : CRef)
+    (hdiff : r.name ≠ s0.me.name ∨ r.ns ≠ s0.me.ns ∨ r.group ≠ s0.me.group ∨ r.version ≠ s0.me.version ∨
+      r.kind ≠ s0.me.kind) : Ev.xrWrite n (some r) ∉ sys.st.trace := by
+  intro h
+  have := no_hijack h0 hr n r h
+  subst this
+  rcases hdiff with h | h | h | h | h <;> exact h rfl
+
+/-- the bound check of Reconcile as a function of the five components -/
+theorem unbound_iff_components (cm : Claim) (x : XR) :
+    unbound cm x = true ↔ ∃ r, x.cref = some r ∧ (r.name ≠ cm.id.name ∨ r.ns ≠ cm.id.ns ∨ r.group ≠ cm.id.group ∨
+      r.version ≠ cm.id.version ∨ r.kind ≠ cm.id.kind) := by
+  unfold unbound
+  cases hc : x.cref with
+  | none => simp
+  | some r =>
+    obtain ⟨a, b, c, d, e⟩ := r
+    cases hid : cm.id with
+    | mk a' b' c' d' e' =>
+      simp only [bne_iff_ne, ne_eq, Option.some.injEq, CRef.mk.injEq, exists_eq_left']
+      constructor
+      · intro h
+        by_cases h1 : a = a'
+        · by_cases h2 : b = b'
+          · by_cases h3 : c = c'
+            · by_cases h4 : d = d'
+              · by_cases h5 : e = e'
+                · exact absurd ⟨h1, h2, h3, h4, h5⟩ h
+                · exact Or.inr (Or.inr (Or.inr (Or.inr h5)))
+              · exact Or.inr (Or.inr (Or.inr (Or.inl h4)))
+            · exact Or.inr (Or.inr (Or.inl h3))
+          · exact Or.inr (Or.inl h2)
+        · exact Or.inl h1
+      · rintro (h | h | h | h | h) ⟨h1, h2, h3, h4, h5⟩ <;> exact h (by assumption)
+
+/-- a `uid` (or any other key reference.Claim has no field for) in the XR's claimRef is not part of
+the comparison: it neither makes the XR foreign nor bound -/
+theorem unbound_ignores_uid (cm : Claim) (x : XR) (b : Bool) : unbound cm { x with crefUid := b } = unbound cm x := rfl
 
 /-- The same, stated on the requests: whenever a call of the in-flight reconcile is about
 to be applied to the store, it is not addressed to a foreign-bound XR, and if it creates
@@ -188,22 +285,29 @@ theorem driver_runs_are_executions {s0 : St} (cfg : Cfg) (plan : Plan) (env : Na
 
 /-! ### non-vacuity -/
 
-/-- a new claim (no reference, no finalizer), a foreign-bound XR `x-a`, an unbound XR `x-b` -/
-def exClaim : Claim := ⟨1, none, false, false, false⟩
+/-- this claim: example.org/v1 Thing ns/c -/
+def exMe : CRef := ⟨"c", "ns", "example.org", "v1", "Thing"⟩
+/-- the claim of the same kind and NAME in another namespace -/
+def exTwin : CRef := ⟨"c", "other-ns", "example.org", "v1", "Thing"⟩
+def exXRT : GVK := ⟨"example.org", "v1", "XThing"⟩
+
+/-- a new claim (no reference, no finalizer), an XR `x-a` bound to the same-named claim of another
+namespace, an unbound XR `x-b` -/
+def exClaim : Claim := ⟨1, exMe, none, false, false, false⟩
 def exStore : St :=
-  { claim := some exClaim, hist := [exClaim],
-    xrs := fun n => if n = "x-a" then some ⟨2, some .other, false, true, false, true, 0⟩
-                    else if n = "x-b" then some ⟨3, none, false, false, false, false, 0⟩ else none,
-    xhist := fun n => [if n = "x-a" then some ⟨2, some .other, false, true, false, true, 0⟩
-                       else if n = "x-b" then some ⟨3, none, false, false, false, false, 0⟩ else none],
+  { me := exMe, claim := some exClaim, hist := [exClaim],
+    xrs := fun n => if n = "x-a" then some ⟨2, some exTwin, false, false, true, false, true, 0⟩
+                    else if n = "x-b" then some ⟨3, none, false, false, false, false, false, 0⟩ else none,
+    xhist := fun n => [if n = "x-a" then some ⟨2, some exTwin, false, false, true, false, true, 0⟩
+                       else if n = "x-b" then some ⟨3, none, false, false, false, false, false, 0⟩ else none],
     nextRv := 10, trace := [] }
 
 example : Init exStore := by
-  refine Init.single (c := exClaim) rfl rfl (by decide) rfl ?_ (fun n => rfl)
+  refine Init.single (c := exClaim) rfl rfl (by decide) rfl rfl ?_ (fun n => rfl)
   intro n ⟨x, hx, hc⟩
   simp only [exStore] at hx
   split at hx
-  · cases hx; cases hc
+  · cases hx; exact absurd hc (by decide)
   · split at hx
     · cases hx; cases hc
     · cases hx
@@ -212,7 +316,7 @@ example : Init exStore := by
 foreign XR: get claim, add finalizer, Get x-a (taken), Get c-1 (free), update claim, apply -/
 def exRun : Sys :=
   stepOk (stepOk (stepOk (stepOk (stepOk (stepOk
-    ⟨exStore, some (reconcile { ssa := true, pick := none, xpick := fun _ => none, cands := ["x-a", "c-1"], up := none })⟩)))))
+    ⟨exStore, some (reconcile { ssa := true, xrt := exXRT, pick := none, xpick := fun _ => none, cands := ["x-a", "c-1"], up := none })⟩)))))
 
 example : Reach exStore exRun :=
   stepOk_reach (stepOk_reach (stepOk_reach (stepOk_reach (stepOk_reach (stepOk_reach
@@ -220,7 +324,67 @@ example : Reach exStore exRun :=
 
 /-- the hypotheses are met by an execution that really creates and binds an XR -/
 example : exRun.st.trace = [.create "c-1", .ack "c-1"] ∧ isBound exRun.st "c-1" = true ∧
-    (exRun.st.claim.map (·.ref)) = some (some "c-1") := by decide
+    (exRun.st.claim.map (·.ref)) = some (some ⟨"c-1", "example.org", "v1", "XThing"⟩) := by decide
+
+/-! #### the recorded reference carries another served version than the controller's
+
+The claim was bound while the XRD's referenceable version was `v1alpha1`; the controller was
+restarted for `v1`. Both syncers keep the one XR `x-b` (no `create` event, no new name) and rewrite
+the reference's apiVersion. -/
+
+def exClaim3 : Claim := ⟨1, exMe, some ⟨"x-b", "example.org", "v1alpha1", "XThing"⟩, true, false, false⟩
+def exStore3 : St :=
+  { me := exMe, claim := some exClaim3, hist := [exClaim3],
+    xrs := fun n => if n = "x-b" then some ⟨3, some exMe, false, true, false, false, false, 0⟩ else none,
+    xhist := fun n => [if n = "x-b" then some ⟨3, some exMe, false, true, false, false, false, 0⟩ else none],
+    nextRv := 10, trace := [] }
+
+example : Init exStore3 := by
+  refine Init.single (c := exClaim3) rfl rfl (by decide) rfl rfl ?_ (fun n => rfl)
+  intro n ⟨x, hx, _⟩
+  simp only [exStore3] at hx
+  split at hx
+  · rename_i h; subst h; rfl
+  · cases hx
+
+def exRun3 (ssa : Bool) : Sys :=
+  stepOk (stepOk (stepOk (stepOk (stepOk (stepOk (stepOk
+    ⟨exStore3, some (reconcile { ssa := ssa, xrt := exXRT, pick := none, xpick := fun _ => none, cands := ["c-1"], up := none })⟩))))))
+
+/-- server-side: the claim update (same name, apiVersion rewritten), then the apply of `x-b`; no create -/
+example : (exRun3 true).st.trace = [.xrWrite "x-b" (some exMe), .ack "x-b"] ∧
+    isBound (exRun3 true).st "x-b" = true ∧ isBound (exRun3 true).st "c-1" = false ∧
+    ((exRun3 true).st.claim.bind (·.ref)) = some ⟨"x-b", "example.org", "v1", "XThing"⟩ := by decide
+
+/-- client-side: `!cmp.Equal(existing, proposed)` → the claim update; the XR is already as desired; no create -/
+example : (exRun3 false).st.trace = [.ack "x-b", .ack "x-b"] ∧
+    isBound (exRun3 false).st "x-b" = true ∧ isBound (exRun3 false).st "c-1" = false ∧
+    ((exRun3 false).st.claim.bind (·.ref)) = some ⟨"x-b", "example.org", "v1", "XThing"⟩ := by decide
+
+/-! #### the referenced XR is bound to the same-named claim of another namespace
+
+A manifest of `other-ns/c` copied into `ns` together with its `spec.resourceRef`: the reconcile of
+`ns/c` reads `x-a`, finds a claimRef that differs in the namespace only, and ends without a single
+write to or delete of the XR — also when `ns/c` is being deleted. -/
+
+def exClaim4 (deleting : Bool) : Claim := ⟨1, exMe, some ⟨"x-a", "example.org", "v1", "XThing"⟩, true, deleting, false⟩
+def exStore4 (deleting : Bool) : St := { exStore with claim := some (exClaim4 deleting), hist := [exClaim4 deleting] }
+
+def exRun4 (ssa deleting : Bool) : Sys :=
+  stepOk (stepOk (stepOk (stepOk
+    ⟨exStore4 deleting, some (reconcile { ssa := ssa, xrt := exXRT, pick := none, xpick := fun _ => none, cands := ["c-1"], up := some true })⟩)))
+
+def isDone : Option P → Bool
+  | some (.ret _) => true
+  | _ => false
+
+example : (exRun4 true false).st.trace = [] ∧ (exRun4 true false).st.xrs "x-a" = exStore.xrs "x-a" ∧ isDone (exRun4 true false).thread = true := by decide
+example : (exRun4 false false).st.trace = [] ∧ (exRun4 false false).st.xrs "x-a" = exStore.xrs "x-a" ∧ isDone (exRun4 false false).thread = true := by decide
+example : (exRun4 true true).st.trace = [] ∧ (exRun4 true true).st.xrs "x-a" = exStore.xrs "x-a" ∧ isDone (exRun4 true true).thread = true := by decide
+example : (exRun4 false true).st.trace = [] ∧ (exRun4 false true).st.xrs "x-a" = exStore.xrs "x-a" ∧ isDone (exRun4 false true).thread = true := by decide
+
+example : unbound (exClaim4 false) ⟨2, some exTwin, false, false, true, false, true, 0⟩ = true := by decide
+example : unbound (exClaim4 false) ⟨2, some exMe, true, false, true, false, true, 0⟩ = false := by decide
 
 /-! ### recorded limit (outside the property's quantifier)
 
@@ -230,24 +394,24 @@ resourceVersion. Witness: claim statically referencing the unbound XR `x-b`; the
 reads it (unbound), updates the claim; then `x-b` is bound to another claim; the pending apply
 rebinds it. (The client-side syncer's merge patch carries the rv of the XR read and is rejected.) -/
 
-def exClaim2 : Claim := ⟨1, some "x-b", true, false, false⟩
+def exClaim2 : Claim := ⟨1, exMe, some ⟨"x-b", "example.org", "v1", "XThing"⟩, true, false, false⟩
 def exStore2 : St := { exStore with claim := some exClaim2, hist := [exClaim2] }
 
 /-- something that is not an environment step of this model: another claim takes the XR -/
 def bindOther (s : St) (n : Name) : St :=
   match s.xrs n with
-  | some x => (putXR s n { x with cref := some .other }).1
+  | some x => (putXR s n { x with cref := some exTwin }).1
   | none => s
 
 def exRun2 (ssa : Bool) : Sys :=
-  let cfg : Cfg := { ssa := ssa, pick := none, xpick := fun _ => none, cands := [], up := none }
+  let cfg : Cfg := { ssa := ssa, xrt := exXRT, pick := none, xpick := fun _ => none, cands := [], up := none }
   -- get claim, get XR x-b, (csa: get XR again) then the foreign bind, then the pending write
   let a := stepOk (stepOk ⟨exStore2, some (reconcile cfg)⟩)
   let b := if ssa then stepOk a else a      -- ssa: Update(claim) comes first
   let c := if ssa then b else stepOk b      -- csa: the Get of Apply
   stepOk ⟨bindOther c.st "x-b", c.thread⟩
 
-example : Ev.xrWrite "x-b" true ∈ (exRun2 true).st.trace := by decide
-example : Ev.xrWrite "x-b" true ∉ (exRun2 false).st.trace := by decide
+example : Ev.xrWrite "x-b" (some exTwin) ∈ (exRun2 true).st.trace := by decide
+example : Ev.xrWrite "x-b" (some exTwin) ∉ (exRun2 false).st.trace := by decide
 
 end Xp.C06
